@@ -7,7 +7,8 @@ reflected variants with scalars / NumPy scalars / vectors) and with the
 expression classes' constructors (incl. ``tmp`` arguments), depth <= 4.
 Oracle: an independent reference interpreter applying the documented table
 recursively on NumPy values, calling ODL only for leaves; ``expr(x)``,
-``expr(x, out=NaN-filled)``, ``expr.domain/range``, ``is_linear`` =>
+``expr(x, out=NaN-filled)``, aliased ``y = x.copy(); e(y, out=y)`` for every
+subexpression with domain == range, ``expr.domain/range``, ``is_linear`` =>
 numerically linear, linear-by-construction => flag set, documented
 ``Functional`` return types, ``TypeError`` for scalars / vectors outside the
 relevant field / space.
@@ -57,6 +58,12 @@ TOLERANCES = {
                  'added',
     'in-place': 'same bound as out-of-place; out is NaN-filled before the '
                 'call',
+    'alias-inplace': 'y = x.copy(); e(y, out=y) for every subexpression e '
+                     'with domain == range at the argument it receives inside '
+                     'the root evaluation: same bound, delta taken at that '
+                     'node; expressions over a leaf that is itself not '
+                     'alias-safe (recorded: PartialDerivative, Laplacian) '
+                     'are skipped and counted',
 }
 ASSUMPTIONS = [
     'leaf operators evaluate correctly (other properties pin them); the '
@@ -291,10 +298,13 @@ class Tracer(ex.Interp):
     def __init__(self, *args, **kwargs):
         super(Tracer, self).__init__(*args, **kwargs)
         self.inputs = {}
+        self.outputs = {}
 
     def ev(self, b, x):
         self.inputs.setdefault(id(b), x)
-        return super(Tracer, self).ev(b, x)
+        r = super(Tracer, self).ev(b, x)
+        self.outputs.setdefault(id(b), r)
+        return r
 
 
 def _tol(env, ref, delta, depth):
@@ -369,6 +379,95 @@ def _localise(env, root, x_root, depth, inplace=False):
         except Exception:  # noqa
             return b
     return root
+
+
+def _alias_sweep(env, root, x, depth, strict, whole_tree):
+    """``y = x.copy(); r = e(y, out=y)`` for every (sub)expression ``e`` with
+    domain == range, at the argument it receives inside the evaluation of
+    the root at ``x``: ``r is y`` and the values are the interpreter's.
+    Children are visited before parents, so the first failure is the smallest
+    failing subtree.  Returns the list of strata hit."""
+    clean = Tracer(env)
+    clean.ev(root, x)
+    noisy = []
+    for seed in (11, 23):
+        t = Tracer(env, noise=NOISE, seed=seed)
+        t.ev(root, x)
+        noisy.append(t)
+    order = []
+
+    def post(b):
+        for k in b.kids:
+            if k is not None:
+                post(k)
+        order.append(b)
+    post(root)
+    if not whole_tree:
+        order = [b for b in order if b is root or b.node['op'] == 'leaf']
+    hit = []
+    unsafe = set()      # ids of leaves that are not alias-safe themselves
+    for b in order:
+        node = b.node
+        if node['dom'] != node['ran'] or \
+                env.info(node['ran']).cat == 'field' or \
+                id(b) not in clean.inputs:
+            continue
+        is_leaf = node['op'] == 'leaf'
+        if not is_leaf and any(id(k) in unsafe for k in ex.walk(b)):
+            # the expression forwards (x, out=x) to an operand that does not
+            # support it -- a property of that leaf, not of the arithmetic
+            hit.append('alias-skip:unsafe-leaf')
+            continue
+        xb, ref = clean.inputs[id(b)], clean.outputs[id(b)]
+        outs = [t.outputs.get(id(b)) for t in noisy]
+        if not ex.vfinite(ref) or any(o is None or not ex.vfinite(o)
+                                      for o in outs):
+            continue
+        delta = max(ex.vmaxabs(ex.vsub(o, ref)) for o in outs)
+        tol, mag, eps = _tol(env, ref, delta, depth)
+        if delta > 1e-4 * max(mag, 1e-300) and delta > 1e3 * eps:
+            continue
+        y = env.element(node['dom'], xb)
+        if is_leaf:
+            # leaves are operands, not expressions: their own behaviour for
+            # out is x is only recorded (needed to judge their parents)
+            try:
+                r = b.obj(y, out=y)
+                ok = r is y and ex.vmaxabs(ex.vsub(ex.to_np(
+                    y, env.set(node['ran'])), ref)) <= tol
+            except Exception:  # noqa
+                ok = False
+            if not ok:
+                unsafe.add(id(b))
+                hit.append('alias-unsafe-leaf:' + node['kind'])
+            continue
+        try:
+            r = _call_guard(env, b, xb, lambda: b.obj(y, out=y), True,
+                            strict=strict)
+        except KnownRegion:
+            continue
+        site = _cls(b.obj) + '._call(out=x)'
+        if r is not y:
+            raise Violation('C04|alias-inplace|{}|{}'.format(
+                site, _region(env, node)),
+                'e(y, out=y) does not return y ({} inside {})'.format(
+                    _pattern(b), _pattern(root)))
+        got = ex.to_np(y, env.set(node['ran']))
+        err = ex.vmaxabs(ex.vsub(got, ref))
+        if not err <= tol:
+            raise Violation('C04|alias-inplace|{}|{}'.format(
+                site, _region(env, node)),
+                'y = x.copy(); e(y, out=y): max error {:.3g} > tol {:.3g}; '
+                'got {!r} reference {!r}; culprit {} inside {}'.format(
+                    err, tol, _short(got), _short(ref), _pattern(b),
+                    _pattern(root)))
+        hit.append('alias-inplace')
+        if node['op'] == 'flvec':
+            hit.append('alias-inplace:v*f')
+        elif node['op'] in ('lscal', 'addvec', 'addscal', 'neg') and \
+                node['a']['op'] == 'flvec':
+            hit.append('alias-inplace:{}(v*f)'.format(node['op']))
+    return hit
 
 
 # --------------------------------------------------------------------------
@@ -518,6 +617,18 @@ def run_case(desc):
         if ex.vmaxabs(ex.vsub(ex.to_np(xe, env.set(dom)), x_before)) != 0:
             raise Violation('C04|input-modified|{}|{}'.format(
                 _modsite(root), reg), 'in-place evaluation changed x')
+        # aliased in-place evaluation (out is x) of every subexpression with
+        # domain == range (all of them at the first point, the root at the
+        # others)
+        try:
+            strata += _alias_sweep(env, root, x, depth,
+                                   bool(desc.get('strict')), i == 0)
+        except Violation:
+            if i != 0:
+                # key the failure by the smallest failing subtree
+                _alias_sweep(env, root, x, depth, bool(desc.get('strict')),
+                             True)
+            raise
 
     # ---- is_linear => numerically linear ------------------------------------
     if expr.is_linear and len(pts) >= 2 and statuses[0] == statuses[1] == 'ok':
@@ -601,7 +712,9 @@ REQUIRED_STRATA = [
     'shortcut:RightScalar.__mul__', 'shortcut:RightScalar*Operator',
     'shortcut:RightScalar*vector', 'field:cplx', 'field:real',
     'space:discr', 'dtype:float32', 'weighting:array', 'weighting:const',
-    'fk:func', 'inplace', 'linearity-checked',
+    'fk:func', 'inplace', 'linearity-checked', 'alias-inplace',
+    'alias-inplace:v*f', 'alias-inplace:lscal(v*f)',
+    'alias-inplace:addvec(v*f)',
     'nest:OperatorComp<OperatorRightScalarMult',
     'nest:OperatorRightVectorMult<OperatorRightScalarMult',
     'nest:OperatorSum<OperatorComp', 'nest:OperatorLeftScalarMult<OperatorSum',
